@@ -13,7 +13,7 @@ for d in sorted(glob.glob(f'{V}/seeded/C*-m*')):
         cb=[];ub=[]
         for q in r.get('caught_by',[]):
             obs=r.get('obligations',{}).get(q,[])
-            hard=[o for o in obs if not re.search(r'status=(timeout|unknown|error)\b',o)]
+            hard=[o for o in obs if not re.search(r'status=(timeout|unknown)\b',o)]
             (cb if (hard or not obs) else ub).append(q)
         meta['caught_by']=cb
         meta['undecided_by']=ub
